@@ -74,7 +74,9 @@ Remove(lseq) ==                \* remove_from_frame(ids); the empty list removes
                  ELSE SelectSeq(clusters, LAMBDA c : c.label \notin labels)
      IN /\ acc' = IF rep = "frame" THEN [p \in 1 .. NPix |-> acc[p] - Contribution(gone)[p]] ELSE acc
         /\ clusters' = kept
-  /\ UNCHANGED rep
+        \* the representation is decided by whether the cluster table holds rows: once the last
+        \* cluster is gone the container is back to the array representation
+        /\ rep' = IF kept = << >> THEN "array" ELSE rep
   /\ Log("remove", lseq, "ok", << >>)
 
 Reset ==
